@@ -1353,6 +1353,18 @@ class Container:
                 list(convert_one(substance, total_quantity_unit) for substance in solute + [solvent]))
             b[index] = total_quantity
 
+        # Stated values that do not determine the amounts - '0.999 U/U' of one enzyme and '0.001 U/U' of another leave the
+        # total activity open - make the rows dependent; the float noise in 1 - 0.999 would let the solver return arbitrary
+        # positive amounts. (Rows and columns are brought to the order of one first: moles next to activity units, traces
+        # next to kilograms say nothing about dependence.)
+        system = a[:n + 1].copy()
+        for _ in range(3):
+            largest = numpy.abs(system).max(axis=1)
+            system /= numpy.where(largest > 0, largest, 1.)[:, None]
+            largest = numpy.abs(system).max(axis=0)
+            system /= numpy.where(largest > 0, largest, 1.)
+        if not numpy.linalg.cond(system) < 1e12:
+            raise ValueError("Solution is impossible to create. (The stated values do not determine the amounts.)")
         xs = numpy.linalg.solve(a[:n + 1], b[:n + 1])
         # a solute whose quantity is stated has that quantity: taking it out of the solver's result again would bring in
         # the cancellation error of (total - everything else), which for a trace in a large total is the whole amount
